@@ -30,14 +30,14 @@ ASSUMPTIONS = common.BASE_ASSUMPTIONS + [
     "post-state = model.apply(pre-state, op) checked by the refinement oracle (ids/timestamps from the observed file)",
 ]
 COMPONENTS = common.COMPONENTS
-EXPECT_PROBES = ["fault_after_flip", "outcome_ambiguous", "outcome_raise_pre", "outcome_ok_post",
+EXPECT_PROBES = ["fault_after_flip", "line_interrupt_after_flip", "outcome_ambiguous", "outcome_raise_pre", "outcome_ok_post",
                  "outcome_interrupted", "rollback_ran"]
 
 OPS = ["append", "append_with", "append_explicit", "multi", "delete_file", "delete_file_append", "expire",
        "expire_append", "delete_snapshot"]
-MODES_LOCAL = ["err:EIO", "err:ENOSPC", "err:EACCES", "diskfull", "int:KeyboardInterrupt", "int:SystemExit",
+MODES_LOCAL = ["lineint:KeyboardInterrupt", "lineint:SystemExit", "err:EIO", "err:ENOSPC", "err:EACCES", "diskfull", "int:KeyboardInterrupt", "int:SystemExit",
                "intafter:KeyboardInterrupt", "double:remove", "double:unflock", "double:marker"]
-MODES_S3 = ["err:InternalError*7", "err:InternalError*2", "err:AccessDenied", "err:EndpointConnectionError*7",
+MODES_S3 = ["lineint:KeyboardInterrupt", "err:InternalError*7", "err:InternalError*2", "err:AccessDenied", "err:EndpointConnectionError*7",
             "errafter:InternalError", "errafter:EndpointConnectionError", "int:KeyboardInterrupt",
             "intafter:KeyboardInterrupt", "double:delete", "double:lockrelease"]
 
@@ -126,14 +126,17 @@ def eligible(mode: str, steps: List[tuple]) -> List[int]:
     return out
 
 
-def _run(plan, scratch, seed, snap, faults, gap):
+def _run(plan, scratch, seed, snap, faults, gap, line_fault=None):
     from .c03 import op_under_test
     store = snap.restore()
     ph = Phase(plan, scratch, plan["backend"], seed, core.Policy(), faults=faults, start=snap.now + 1.0, store=store)
     ph.sim.keep_steplog = True
     ops = [op_under_test(plan["op"]), {"kind": "sleep", "dt": gap}, {"kind": "scan", "api": "scan"},
            {"kind": "append", "tag": "fu1", "n": 1}]
-    ph.actor("px", "ut", ops)
+    ctx = ph.actor("px", "ut", ops)
+    if line_fault is not None:
+        ctx.line_fault = line_fault
+        ph.world.on_flip.append(lambda fl: line_fault.setdefault("flip_at", line_fault.get("count", 0)))
     ph.run()
     return ph
 
@@ -147,12 +150,24 @@ def execute(plan: dict, scratch: str, replay: Optional[dict] = None) -> dict:
     snap = common.Snapshot(ph0)
     pre = ph0.world.state()
     gap = 1.0 if backend == "local" else 75.0
-    ref = _run(plan, scratch, seed, snap, None, gap)
+    is_line = plan["mode"].startswith("lineint")
+    ref_lf = {"k": None, "op_index": 0} if is_line else None
+    ref = _run(plan, scratch, seed, snap, None, gap, ref_lf)
     if ref.sim.outcome != "ok" or ref.sim.harness_errors or ref.world.history[0]["outcome"] != "ok":
         raise core.HarnessError(f"reference run failed: {ref.sim.outcome} {ref.sim.harness_errors} "
                                 f"{ref.world.history[0].get('msg')}")
     op_steps = [s for s in ref.sim.steplog if s[0] == "ut" and s[1] <= _op_end_step(ref)]
     pts = plan.get("fault_points")
+    if pts is None and is_line:
+        n_lines = ref_lf.get("count", 0)
+        fa = ref_lf.get("flip_at", n_lines)
+        r = random.Random(plan.get("k_seed", 0))
+        want = plan.get("sample_k") or 240
+        near = list(range(max(1, fa - 30), min(n_lines, fa + 260) + 1))
+        r.shuffle(near)
+        far = list(range(1, n_lines + 1))
+        r.shuffle(far)
+        pts = sorted(set(near[: (want * 2) // 3] + far[: want - (want * 2) // 3]))
     if pts is None:
         allk = eligible(plan["mode"], op_steps)
         if plan.get("sample_k") and len(allk) > plan["sample_k"]:
@@ -198,7 +213,15 @@ def _op_end_step(ph) -> int:
 def _one(plan, scratch, seed, snap, k, pre, cfg, gap) -> dict:
     backend = plan["backend"]
     mode = plan["mode"]
-    ph = _run(plan, scratch, seed, snap, faults_for(mode, k, backend), gap)
+    if mode.startswith("lineint"):
+        lf = {"k": k, "op_index": 0, "exc": mode.partition(":")[2] or "KeyboardInterrupt"}
+        ph = _run(plan, scratch, seed, snap, None, gap, lf)
+        if lf.get("fired"):
+            ph.sim.fired["line_interrupt"] += 1
+            ph.sim.fired_log.append({"kind": "line_interrupt", "actor": "ut", "step": k, "pstep": k, "op": "line",
+                                     "cls": f"{lf['fired'][0]}:{lf['fired'][2]}", "target": f"{lf['fired'][0]}:{lf['fired'][1]}"})
+    else:
+        ph = _run(plan, scratch, seed, snap, faults_for(mode, k, backend), gap)
     w, sim = ph.world, ph.sim
     V: List[dict] = []
 
@@ -221,7 +244,11 @@ def _one(plan, scratch, seed, snap, k, pre, cfg, gap) -> dict:
             c = world.seams.classify_rel(target)
             if c in ("DATA", "MANIFEST", "MLIST", "META"):
                 written.add(target)
-    if first is not None and any(f["actor"] == "ut" and f["gstep"] < _gstep_of(sim, first) for f in w.flips):
+    if first is not None and first["kind"] == "line_interrupt":
+        if lf.get("flip_at") is not None and lf["flip_at"] < k:
+            sim.probe("fault_after_flip")
+            sim.probe("line_interrupt_after_flip")
+    elif first is not None and any(f["actor"] == "ut" and f["gstep"] < _gstep_of(sim, first) for f in w.flips):
         sim.probe("fault_after_flip")
     if any(op == "remove" or op == "delete" for (_g, _t, a, op, tg, o) in sim.log if a == "ut"
            and world.seams.classify_rel(tg) == "DATA"):
